@@ -66,6 +66,8 @@ ExpectWith(e, a) ==
       [] e.op = "arange" -> Arange(e.args.start, e.args.stop, e.args.step)
       [] e.op = "arange2" -> Arange(e.args.start, e.args.stop, 1)
       [] e.op = "arange1" -> Arange(0, e.args.stop, 1)
+      [] e.op = "arange_at" -> LET st == IF e.args.form = 3 THEN e.args.step ELSE 1   s0 == IF e.args.form = 1 THEN 0 ELSE e.args.start IN
+            [ok |-> TRUE, shape |-> <<ArangeLen(s0, e.args.stop, st)>>, elems |-> [q \in 1..Len(e.args.at) |-> s0 + e.args.at[q] * st]]
       [] e.op = "linspace" -> LinspaceScaled(e.args.start, e.args.stop, e.args.num, e.args.endpoint)
       [] e.op = "eye" -> Eye(e.args.n, e.args.m, e.args.k)
       [] e.op = "identity" -> Eye(e.args.n, e.args.n, 0)
